@@ -91,9 +91,17 @@ def same_bytes(ctx, x, y):
     return And(Eq(x.n, y.n), Implies(And(j >= 0, j < to_z3(x.n)), x.at(j) == y.at(j)))
 
 
+MSG_TRUTHY = z3.Function('msg_truthy', I_, z3.BoolSort())
+
+
 class MsgV(Opaque):
+    """a message value: any picklable object except None - it may well be falsy ('' , b'', 0, {}, [] are legal messages)"""
+
     def __init__(self, mid):
         Opaque.__init__(self, 'msg', mid)
+
+    def truth(self, I):
+        return MSG_TRUTHY(to_z3(self.id))
 
 
 class PickleOf(object):
